@@ -18,7 +18,7 @@ CLAIMED = {
         "property-based testing + exhaustive enumeration of sub-domains against an exact rounding-interval oracle (round-trip and minimality relations)",
     ),
     "C03": (
-        "Exhaustive over all 8/16-bit values x every compiled radix, generated (uniform, log-uniform, r^k+-1, chunk products, MIN/MAX) for the wider types, compared with a naive reference numeral; default API compared with Display/itoa; slice offset, length and canaries checked.",
+        "Exhaustive over all 8/16-bit values x every compiled radix, enumerated binary boundaries 2^k+d (|d| <= 40, both signs) for the eight wider types x every radix, generated (uniform, log-uniform, r^k+-1, 2^k+d, chunk products incl. a first quotient of 2^64+-1, MIN/MAX) for the wider types, compared with a naive reference numeral; default API compared with Display/itoa; slice offset, length and canaries checked.",
         "Trusted: native u128 division for the reference numeral, std Display.",
         "exhaustive enumeration + property-based testing against a naive reference implementation (differential)",
     ),
@@ -43,12 +43,12 @@ CLAIMED = {
         "property-based testing against an exact-arithmetic error-bound oracle",
     ),
     "C08": (
-        "For every compiled format that has both a writer and a parser for a type (12 integer types x radix and sign formats; f32/f64 x radices, mixed bases, write-flag, syntax-flag and the 147 prebuilt formats): generated values incl. +-0, +-inf, NaN x generated write options without digit truncation (min digits, breaks, trim, custom punctuation, special strings) with agreeing parse options: the complete parser of the same format accepts every written byte and returns the identical bits (integers, decimal and power-of-two floats, zeros, infinities; NaN->NaN; acceptance only for generic radices).",
+        "For every compiled format that has both a writer and a parser for a type (12 integer types x radix and sign formats; f32/f64 x radices, mixed bases, write-flag, syntax-flag and the 147 prebuilt formats): generated values incl. +-0, +-inf, NaN x generated write options without digit truncation (min digits, breaks, trim, custom punctuation, special strings) with agreeing parse options, plus the enumerated floats d*10^e (d = 1..99, every exponent, both signs) with trim_floats off and on for the decimal core formats: the complete parser of the same format accepts every written byte and returns the identical bits (integers, decimal and power-of-two floats, zeros, infinities; NaN->NaN; acceptance only for generic radices).",
         "Trusted: nothing beyond the harness plumbing (round-trip relation). Specials are skipped when their string is disabled, the format forbids specials, or the string is itself a number of the format (large radices / letter punctuation).",
         "property-based testing of a write/parse round-trip relation",
     ),
     "C09": (
-        "For every compiled writer (12 integer types x every radix format; f32/f64 x core, write-flag, syntax and prebuilt formats): generated values x generated valid write options (max/min digits up to 2000, exponent breaks over the whole i32 range incl. i32::MIN/MAX, round mode, trim, punctuation, special strings) x buffer lengths {bound, bound+1, bound+7} and lengths below the bound (0, generated, bound-1, written-1, written), every buffer being a guard-page slice of exactly that length in both placements inside supervised worker processes; release and debug-assertion builds. Monitor/oracle: the bound evaluates, no panic with len >= bound, returned slice is a prefix within the bound, short buffers succeed in-slice or panic, canaries intact, no fault.",
+        "For every compiled writer (12 integer types x every radix format; f32/f64 x core, write-flag, syntax and prebuilt formats): generated values x generated valid write options (max/min digits up to 2000, exponent breaks over the whole i32 range incl. i32::MIN/MAX, round mode, trim, punctuation, special strings) x buffer lengths {bound, bound+1, bound+7} and lengths below the bound (0, generated, bound-1, written-1, written), every buffer being a guard-page slice of exactly that length in both placements inside supervised worker processes; release and debug-assertion builds. Monitor/oracle: the bound evaluates, no panic with len >= bound, returned slice is a prefix within the bound, short buffers succeed in-slice or panic, canaries intact, no fault. Third observation point lexical::to_string_with_options (allocates the bound itself; facade formats x the same options, bounds up to 1 MiB): no panic, length <= bound.",
         "Trusted: kernel page protection, crash attribution via the shared progress record; specials with a disabled string are excluded (documented panic); bounds above 8 GiB skipped.",
         "property-based testing under a memory-fault / panic monitor (guard pages + supervised subprocesses) with the documented bound as oracle",
     ),
@@ -73,7 +73,7 @@ CLAIMED = {
         "bounded-exhaustive enumeration + property-based testing: metamorphic relations and a reference classifier",
     ),
     "C14": (
-        "Per compiled writer format (radix 10, every power-of-two and generic radix, mixed bases, sign/notation flag variants) and float type: finite values (structured bits; short digit strings in the output radix giving exact ties and carry patterns) x generated options (max/min digits 1..64, breaks, Round/Truncate, trim, custom punctuation). Metamorphic oracle: the output, read by a strict reader with the configured punctuation, must equal the default output of the same float rounded in exact digit arithmetic (half-even / truncate, carry adjusts the exponent), with <= max and >= min digits, '.0' trimmed exactly for integral outputs, and exponent notation iff required or the (rounded) scientific exponent is outside the breaks and never when forbidden.",
+        "Per compiled writer format (radix 10, every power-of-two and generic radix, mixed bases, sign/notation flag variants) and float type: finite values (structured bits; short digit strings in the output radix giving exact ties and carry patterns; a fifth of the cases couple a (r-1)..(r-1)h value with max digits <= the run length and min in {0, max, below}) x generated options (max/min digits 1..64, breaks, Round/Truncate, trim, custom punctuation). Metamorphic oracle: the output, read by a strict reader with the configured punctuation, must equal the default output of the same float rounded in exact digit arithmetic (half-even / truncate, carry adjusts the exponent), with <= max significant digits, no more written digits (zero padding included) than max apart from integer zeros and the mandatory '.0', >= min digits unless trimmed, '.0' trimmed exactly for integral outputs in both notations, and exponent notation iff required or the (rounded) scientific exponent is outside the breaks and never when forbidden.",
         "Trusted: exact digit arithmetic in the harness; the library's default output is the base of the relation. For power-of-two radices the break unit is undocumented (notation only demanded where digit and bit readings agree); mixed bases are exempt from the notation clause. Four known findings with structural matchers.",
         "property-based testing with a metamorphic oracle (default output rounded in exact arithmetic)",
     ),
